@@ -79,6 +79,10 @@ def pandas_iso_date_re : Re :=
 def pandas_iso_month_re : Re :=
   (Re.seqs [((Re.rep (Re.cls [(48, 57)]) 4 4)), (Re.cls [(45, 45)]), ((Re.rep (Re.cls [(48, 57)]) 1 2))])
 
+/-- Config/config.py DEFAULT_DECIMAL_WIDTH / DEFAULT_DECIMAL_SCALE -/
+def decimalWidth : Int := 28
+def decimalScale : Int := 10
+
 def patternByName (n : String) : Option Re :=
   if n = "sql_TIME_PERIOD_PATTERN" then some sql_TIME_PERIOD_PATTERN else
   if n = "sql_TIME_INTERVAL_PATTERN" then some sql_TIME_INTERVAL_PATTERN else
